@@ -31,6 +31,13 @@ CHECKS = {
              "neighbourhoods across add_arm/remove_arm. Correspondence with radii on realised distances and ties at k; twin against a "
              "fresh learning policy on the oracle-selected rows.",
         ref="7 (C03)"),
+    "C04": dict(
+        text="Lean 4 proof (partial): World model of several bandits plus the mutable parameter dictionaries reachable from more than one "
+             "place: noninterference_private (any interleaving of constructions, fits, copies and other calls: every bandit's trees are "
+             "built with its own seed; default and caller dictionaries never written), shared_default_counterexample (repaired D5). "
+             "Processes, hash randomisation and the real object graph cannot be exhibited by the model: sampled by digests of scripted "
+             "scenarios alone / under PYTHONHASHSEED 0, 1, random / interleaved with other bandits sharing policy tuple objects.",
+        ref="7 (C04)"),
     "C05": dict(
         text="Lean 4 proof (partial): partition_exact_cover (for all n>=1, n_jobs!=0, cpu: sizes positive, sum n, starts = prefix sums), "
              "chunked_map / predict_any_partition (every contiguous partition with a row-local worker gives the row-wise results), "
@@ -87,11 +94,34 @@ CHECKS = {
              "tree_binarizer_twice_counterexample witnesses known finding K2. Correspondence with arm-dependent and non-idempotent "
              "binarizers under every neighbourhood policy; twin binarizer vs pre-converted rewards.",
         ref="7 (C14)"),
+    "C15": dict(
+        text="Lean 4 proof (full for the selection / cache logic): sim_distance_lookup, sim_selection_eq_library, sim_cache_correct (per-"
+             "metric cache hands every neighbour bandit the distances of its own metric), shared_cache_counterexample (repaired D6). The "
+             "offline / online drivers are tied by replaying every simulation through the public API on deep copies of the original "
+             "bandits (same split incl. training-row order) and comparing predictions and deterministic expectations.",
+        ref="7 (C15)"),
+    "C16": dict(
+        text="Lean 4 proof (full given the realised split): split_partition, batches_cover_once (all n, b), stats_additive, "
+             "min_le_mean_le_max, evaluator_count_total, evaluator_ordered. get_arm_stats, default_evaluator and the batch loop are "
+             "compared with the executable model; public attributes of complete runs are checked against recomputation.",
+        ref="7 (C16)"),
     "C17": dict(
         text="Lean 4 proof (full for the modelled rejection classes): rejected_noop - for every state, op, argument, oracle, tape: a rejected "
              "call returns the identical state and random streams. Malformed calls of every class at random positions: model vs "
              "implementation, and continuation-on-bandit vs continuation-on-copy-taken-before twins.",
         ref="7 (C17)"),
+    "C18": dict(
+        text="Lean 4 proof (partial): series_disambiguation_fit / _predict (the Series rules reconstruct every single-row or single-"
+             "feature matrix), caller_cells_untouched, arms_by_value. numpy / pandas container internals are runtime: every scenario is "
+             "run with lists and with ndarray (C/F/int/non-contiguous) / Series / DataFrame containers, and all caller objects are "
+             "snapshotted byte-for-byte around each call; __convert_context on Series is compared with the executable rule.",
+        ref="7 (C18)"),
+    "C19": dict(
+        text="Lean 4 proof (partial, largest runtime share): copy_bisimilar (equal state => equal behaviour under every operation "
+             "sequence), copy_independent (World model: a duplicate of everything reachable cannot influence or be influenced). That "
+             "deepcopy / pickle deliver such a duplicate is sampled: deepcopy and pickle protocols 2..5 at random points of random "
+             "histories (incl. scale=True scalers, binarizers), restore in a fresh interpreter, every continuation compared.",
+        ref="7 (C19)"),
     "C20": dict(
         text="Lean 4 proof (full for context-free policies, exact arithmetic): fit_perm / partialFit_perm (any row permutation gives the "
              "identical state), shift_greedy, shift_ucb, shift_softmax_invariant, addXty_scale. Relabelling is the model's parametricity "
